@@ -53,7 +53,7 @@ Inductive operand := ONull | OInt (t : ity) (z : Z) | ODec (m s : Z).
 (* a result: NULL, an error, a Go integer (I8/I16/I32/I64/U64 carriers), or a decimal *)
 Inductive result := RNull | RErr | RInt (t : ity) (z : Z) | RDec (m s : Z).
 
-Inductive op := Plus | Minus | Mult | IntDiv | Mod | Div | Neg.
+Inductive op := Plus | Minus | Mult | IntDiv | Mod | Div | Neg | Abs | Sign.
 
 (* convertToInt64 as used by convertValueToType (flag and error are dropped there): uint64 above MaxInt64
    becomes MaxInt64 *)
@@ -202,6 +202,34 @@ Definition divide (ldecl : Z) (l r : operand) : result :=
         RDec (round_half_away q (scale - f)) f
   end.
 
+(* function/absval.go AbsVal.Eval: unsigned values unchanged; a signed value is negated in its own Go carrier
+   (so the most negative value of the carrier wraps onto itself); decimals exact *)
+Definition go_carrier (t : ity) : ity := match t with I24 => I32 | U24 => U32 | _ => t end.
+Definition wrap_carrier (t : ity) (z : Z) : Z :=
+  match go_carrier t with
+  | I8 => wrap_i8 z | I16 => wrap_i16 z | I32 => wrap_i32 z | I64 => wrap_i64 z
+  | U8 => wrapU 256 z | U16 => wrapU 65536 z | U32 => wrapU 4294967296 z | _ => wrap_u64 z
+  end.
+Definition absf (o : operand) : result :=
+  match o with
+  | ONull => RNull
+  | OInt t z => if unsigned t then RInt (go_carrier t) z
+                else RInt (go_carrier t) (if z <? 0 then wrap_carrier t (- z) else z)
+  | ODec m s => RDec (Z.abs m) s
+  end.
+
+(* function/math.go Sign.Eval: signed integers and decimals go through Int64.Convert (a decimal is ROUNDED to an
+   integer first, clamped at the BIGINT limits), unsigned ones through Uint64.Convert; the result is an int8 *)
+Definition signf (o : operand) : result :=
+  match o with
+  | ONull => RNull
+  | OInt _ z => RInt I8 (Z.sgn z)
+  | ODec m s =>
+      let n := if m >? max_i64 * 10 ^ s then max_i64 else if m <? min_i64 * 10 ^ s then min_i64
+               else rha m (10 ^ s) in
+      RInt I8 (Z.sgn n)
+  end.
+
 Definition eval (o : op) (lit : bool) (ldecl : Z) (l r : operand) : result :=
   match o with
   | Plus | Minus | Mult => arith o l r
@@ -209,6 +237,8 @@ Definition eval (o : op) (lit : bool) (ldecl : Z) (l r : operand) : result :=
   | Mod => modulo l r
   | Div => divide ldecl l r
   | Neg => neg lit l
+  | Abs => absf l
+  | Sign => signf l
   end.
 
 (* ---- executable equality for the correspondence ---- *)
